@@ -177,6 +177,20 @@ func (c08) Run(c *fw.Case) {
 			fixedInsts = append(fixedInsts, a, map[string]any{"a": gen.Clone(a)})
 		}
 		fixedInsts = append(fixedInsts, []any{gen.Pick(r, vals), nil}, []any{"x", json.Number("1")})
+	} else if c.Idx%13 == 5 {
+		// a power of two on the schema side, its WRAP-AROUND image on the instance side (what a conversion to a narrower or
+		// signed machine integer turns it into: 2^63 -> -2^63, 2^64 -> 0, 2^31 -> -2^31, 2^8 -> 0 ...), in every integer kind
+		// that holds it: equal only if equal as numbers
+		pairs := [][2]string{{"9223372036854775808", "-9223372036854775808"}, {"18446744073709551616", "0"}, {"4294967296", "0"}, {"2147483648", "-2147483648"},
+			{"65536", "0"}, {"32768", "-32768"}, {"256", "0"}, {"128", "-128"}, {"9007199254740992", "0"}, {"-9223372036854775808", "9223372036854775808"}, {"18446744073709551615", "-1"}, {"4294967295", "-1"}}
+		pr := gen.Pick(r, pairs)
+		b, w := json.Number(pr[0]), json.Number(pr[1])
+		draft = gen.D2020
+		doc = gen.Pick(r, []map[string]any{
+			{"enum": []any{b, "x"}}, {"const": b}, {"not": map[string]any{"const": b}}, {"items": map[string]any{"enum": []any{b}}}, {"properties": map[string]any{"a": map[string]any{"const": b}}},
+			{"enum": []any{[]any{b}, map[string]any{"a": b}}}, {"if": map[string]any{"const": b}, "then": false},
+		})
+		fixedInsts = []any{w, b, []any{w}, []any{b, w}, map[string]any{"a": w}, map[string]any{"a": b}, json.Number("0")}
 	} else if c.Idx%2 == 0 {
 		doc = focusedSchema(c)
 	} else {
